@@ -1495,3 +1495,40 @@ package kapacitor
 //@   ensures idx < len(n.result.Series) ==> n.result.Series[idx] == row
 //@   ensures len(n.result.Series) == old(len(n.result.Series))
 //@   ensures forall k int :: 0 <= k && k < len(n.result.Series) && k != idx ==> n.result.Series[k] == old(n.result.Series[k])
+
+// ---------------------------------------------------------------- batch.go: the live query loop (C16)
+// "each tick issues exactly one query covering [tick-offset-period, tick-offset)": when the query
+// for a tick is sent, its bounds are exactly those -- the same bounds the historical enumeration
+// (Queries, above) gives for that tick.
+// Assumed (trusted) of the collaborators: they do not touch the node, the query or the batch
+// definition (frames `nothing`); the edge's own delivery is trusted.
+//@ func (ticker).Start
+//@   trusted
+//@   modifies nothing
+//@ func (*Query).String
+//@   trusted
+//@   modifies nothing
+//@ func (*Query).IsGroupedByTime
+//@   trusted
+//@   pure
+//@ func =(github.com/influxdata/kapacitor/influxdb.Client).Query
+//@   trusted
+//@   modifies nothing
+//@   ensures result1 == nil ==> result0 != nil
+//@ func =github.com/influxdata/kapacitor/edge.ResultToBufferedBatches
+//@   trusted
+//@   modifies nothing
+//@   ensures forall k int :: 0 <= k && k < len(result0) ==> result0[k] != nil
+//@ func =(interface{NewNamedClient(name string) (github.com/influxdata/kapacitor/influxdb.Client, error)}).NewNamedClient
+//@   trusted
+//@   modifies nothing
+//@   ensures result1 == nil ==> result0 != nil
+//@ spec liveQueryOK(n *QueryNode) bool = n != nil && n.b != nil && n.query != nil && n.diag != nil && n.timer != nil
+//@     && n.query.startTL != nil && n.query.stopTL != nil && n.query.startTL != n.query.stopTL
+//@     && (n.query.groupByTimeDL != nil ==> n.query.groupByTimeDL.Val != 0 && n.query.groupByTimeDL != n.query.groupByOffsetDL)
+//@ func (*QueryNode).doQuery
+//@   props C16
+//@   requires liveQueryOK(n) && n.ticker != nil && in != nil && n.et != nil && n.et.tm != nil && n.statMap != nil
+//@   guardcall Query#1: n.query.startTL.Val == now - time.Time(n.b.Offset) - time.Time(n.b.Period) && n.query.stopTL.Val == now - time.Time(n.b.Offset)
+//@   loop 1
+//@     invariant liveQueryOK(n) && con != nil && n.batchesQueried != nil && n.pointsQueried != nil
